@@ -4,7 +4,7 @@ from ..fmtdecode import format_pieces
 from ..paths import PathEnum
 from ..tables import enum_const_table
 from .fields import field_writers, mut_borrow_consumers
-from .util import is_call, look, norm, option_is_some, transforms, last_seg, truth
+from .util import writer_roots, is_call, look, norm, option_is_some, transforms, last_seg, truth
 from ..symstr import symstr
 
 EXPLANATION = (
@@ -202,7 +202,7 @@ def dispatch(ctx):
         ctx.ob("R17.4", "new|fields", ok, "HttpRoutes::new stores server_id, prefix as given and media_type = ApplicationJson", fnew.loc(0))
     for fld in ("media_type", "server_id", "prefix"):
         for w in field_writers(facts, ROUTES, fld):
-            ctx.ob("R17.4", "writers|%s|%s" % (fld, w[0]), w[0] == "router::HttpRoutes::<T>::new", "writer of HttpRoutes.%s: %s (%s)" % (fld, w[0], w[3]), w[2])
+            ctx.ob("R17.4", "writers|%s|%s" % (fld, w[0]), writer_roots(facts, w[0]) == {"router::HttpRoutes::<T>::new"}, "writer of HttpRoutes.%s: %s (%s)" % (fld, w[0], w[3]), w[2])
     # set_server / set_content_type really store what they are given
     for name, hname, field in (("response::Response::set_server", "response::ResponseHeaders::set_server", "server"), ("response::Response::set_content_type", "response::ResponseHeaders::set_content_type", "content_type")):
         f1, f2 = facts.fn(name), facts.fn(hname)
